@@ -94,6 +94,16 @@ macro_rules! per_set {
                         // other message / context / mode
                         let mut m2 = msg.clone(); m2.push(1);
                         if vkey.verify(&m2, &sig, &ctx) != refimpl::verify(&p, &rpk, &m2, &sig, &ctx) { std::println!("DIFF {} verify decision differs on another message", stringify!($set)); $bad += 1; }
+                        // another context (extended, truncated, first byte changed, empty), in the mode the signature was made for
+                        {
+                            let mut alts: Vec<Vec<u8>> = Vec::new();
+                            let mut c2 = ctx.clone(); if c2.len() < 255 { c2.push(7); alts.push(c2); }
+                            if !ctx.is_empty() { alts.push(ctx[..ctx.len() - 1].to_vec()); let mut c3 = ctx.clone(); c3[0] ^= 0x40; alts.push(c3); alts.push(Vec::new()); }
+                            for alt in &alts {
+                                let va = if hashed { vkey.hash_verify(&msg, &sig, alt, &ph) } else { vkey.verify(&msg, &sig, alt) };
+                                if va { std::println!("DIFF {} signature for a {}-byte context accepted under a different {}-byte context (hashed={})", stringify!($set), ctx.len(), alt.len(), hashed); $bad += 1; }
+                            }
+                        }
                         if !hashed && vkey.hash_verify(&msg, &sig, &ctx, &ph) { std::println!("DIFF {} pure signature accepted in pre-hash mode", stringify!($set)); $bad += 1; }
                         if hashed && vkey.verify(&msg, &sig, &ctx) { std::println!("DIFF {} pre-hash signature accepted in pure mode", stringify!($set)); $bad += 1; }
                     }
